@@ -279,6 +279,12 @@ def run(tier, v):
         "regex languages of Labels.tla are stated for the finite value universe (cross-checked by C16); the harness evaluates the reference with its own matcher code",
         "virtual time (testing/synctest) stands for the wall clock",
     ]
+    # end-to-end clause: no notification of the real instance contains an inhibited alert (observer AMObs)
+    from checks import e2ecommon
+    e = e2ecommon._run_scenarios(PID, tier, v, 200, 3000)
+    e2ecommon.judge(PID, v, e, {"C03"})
+    coverage["e2e_scenarios_with_inhibition_rule"] = e["runs"]
+    coverage["traces_validated_against_impl"] = coverage.get("traces_validated_against_impl", 0) + e["runs"]
     return "model_checking", coverage, assumptions
 
 
